@@ -11,7 +11,7 @@ import (
 )
 
 var repo = flag.String("repo", "/repo", "repository root")
-var allExtractors = []string{"wire", "classify", "sites", "boxconsts"}
+var allExtractors = []string{"wire", "classify", "sites", "boxconsts", "adapter"}
 
 var outDir = flag.String("out", "/verif/lean/TSSVerif/Gen", "output directory for generated Lean files")
 
@@ -35,6 +35,8 @@ func main() {
 			name, body = "Sites", genSites()
 		case "boxconsts":
 			name, body = "BoxConsts", genBoxConsts()
+		case "adapter":
+			name, body = "Adapter", genAdapter()
 		default:
 			fmt.Fprintf(os.Stderr, "unknown extractor %q\n", w)
 			os.Exit(2)
